@@ -47,7 +47,7 @@ class SecFloat(core.SymFloat):
             raise Unsupported('total_seconds beyond 2**39 s')
         sg = z3.If(U >= 0, 1, -1)
         big = []
-        for e in range(34, 39):
+        for e in range(33, 39):
             k = 52 - e
             n = a * (1 << k)
             fl, rem = n / US, n % US
@@ -64,6 +64,27 @@ class SecFloat(core.SymFloat):
             t = z3.If(c, m / (1 << k), t)
         t = z3.If(a < (1 << 34) * US, a / US, t)
         return wrapint(sg * t)
+
+    def round_micros(self):
+        """the microsecond count datetime.fromtimestamp() derives from this
+        float (C: modf, fractional part * 1e6, round half even).  Below
+        2**33 s the float is within 2**-21 s < 0.5 us of us / 10**6, so the
+        result is us itself; above, the fractional part is mf / 2**k with
+        mf < 2**19, and mf * 10**6 < 2**53 is exact in binary64."""
+        import z3
+        U, a, sg, big = self._parts()
+
+        def one(m, k):
+            T, mf = m / (1 << k), m % (1 << k)
+            n2 = mf * US
+            fl, rem, half = n2 / (1 << k), n2 % (1 << k), 1 << (k - 1)
+            r = z3.If(rem < half, fl, z3.If(rem > half, fl + 1, z3.If(
+                fl % 2 == 0, fl, fl + 1)))
+            return sg * (T * US + r)
+        t = one(big[-1][1], big[-1][2])
+        for c, m, k in reversed(big[:-1]):
+            t = z3.If(c, one(m, k), t)
+        return wrapint(z3.If(a < (1 << 33) * US, U, t))
 
     def exact_cmp(self, o, op):
         import z3
@@ -289,6 +310,28 @@ class datetime:
         if self.us is None:
             raise Unsupported('instant of a field-built datetime')
         return self.us
+
+    def timestamp(self):
+        if self.tzinfo is None:
+            raise Unsupported('timestamp() of a naive datetime (local zone)')
+        us = self._need_us() - self.utcoffset().us - EPOCH_US
+        return SecFloat(us) if isinstance(us, SymInt) else us / US
+
+    @classmethod
+    def fromtimestamp(cls, t, tz=None):
+        if tz is None:
+            raise Unsupported('fromtimestamp() into the local zone')
+        if isinstance(t, SecFloat):
+            us = t.round_micros()
+        elif isinstance(t, DyadicFloat):
+            us = t.micros()
+        elif isinstance(t, (int, SymInt)) and not isinstance(t, bool):
+            us = t * US
+        else:
+            raise Unsupported('fromtimestamp(%s)' % type(t).__name__)
+        r = cls(_us=0, tzinfo=tz)
+        r.us = r._chk(us + EPOCH_US + tz.utcoffset(None).us)
+        return r
 
     def _field(self, n):
         if self.f is None:
